@@ -266,6 +266,14 @@ class MustFacts(Domain):
         return s
 
 
+class MayFacts(MustFacts):
+    """the same interface with union at joins: a fact that holds on SOME path to this point (staleness,
+    taint).  Smaller sets are lower in the lattice."""
+    def join(self, a, b): return a | b
+    def leq(self, a, b): return a <= b
+    def widen(self, old, new): return old | new
+
+
 # --------------------------------------------------------------------------
 # disjunctive completion (trace partitioning): the state is a list of base
 # states that are never merged at if-joins (until `cap` is exceeded).  Gives
